@@ -96,6 +96,11 @@ func longInput(t *rapid.T, x *X, c *Case) {
 		return // (C09 protects a subset of the entries only: the others may be optimized away)
 	}
 	target := gspec.Pick(t, []int{300, 1100, 4200, 9000}, "longlen")
+	if g.HasState && target > 1100 {
+		// (a state store that grows with the input is cloned at every choice and sequence: the
+		// work is quadratic in the length, in the reference as in the parser)
+		target = 600
+	}
 	sep := gspec.Pick(t, []string{"\n", "", " "}, "longsep")
 	var in []byte
 	for i := 0; len(in) < target && i < 4000; i++ {
